@@ -185,13 +185,18 @@ def norm_index(E, n, i, exc=IndexError):
         if not (0 <= i < n):
             E.raise_(exc, "index out of range", implicit="index")
         return i
+    if isinstance(n, int) and not isinstance(i, int):
+        lo, hi = E.interval(i)
+        if lo is not None and hi is not None and 0 <= lo and hi < n:
+            return i
     zi, zn = zint(i), zint(n)
     ok = z3.And(zi >= -zn, zi < zn)
     if not E.branch(ok):
         E.raise_(exc, "index out of range", implicit="index")
     if isinstance(i, int):
         return i if i >= 0 else z3.simplify(zi + zn)
-    if entails(E, zi >= 0):
+    lo, _hi = E.interval(zi)
+    if (lo is not None and lo >= 0) or entails(E, zi >= 0):
         return zi
     return z3.If(zi < 0, zi + zn, zi)
 
@@ -318,21 +323,19 @@ def and_const(x, c):
 
 
 def width_of(E, x):
+    lo, hi = E.interval(x)
+    if lo is not None and hi is not None and lo >= 0:
+        for w in (1, 2, 3, 4, 5, 6, 7, 8, 16, 32, 64):
+            if hi < (1 << w):
+                return w
     for w in (1, 2, 3, 4, 5, 6, 7, 8, 16, 32, 64):
         if entails(E, z3.And(x >= 0, x < (1 << w))):
             return w
     return None
 
 
-def bits_of(E, x, w):
-    bs = [E.fresh_int("bit") for _ in range(w)]
-    for b in bs:
-        E.assume(z3.And(b >= 0, b <= 1))
-    E.assume(x == z3.Sum([b * (1 << i) for i, b in enumerate(bs)]) if w > 1 else x == bs[0])
-    return bs
-
-
 def and_sym(E, x, y):
+    from ..common import bits
     wx, wy = width_of(E, x), width_of(E, y)
     if wx is None and wy is None:
         raise Unsupported("bitwise op on unbounded symbolic ints")
@@ -350,9 +353,15 @@ def and_sym(E, x, y):
             x = x % (1 << w)
         if wy > w:
             y = y % (1 << w)
-    bx, by = bits_of(E, x, w), bits_of(E, y, w)
-    return z3.Sum([z3.If(bx[i] + by[i] == 2, z3.IntVal(1 << i), z3.IntVal(0)) for i in range(w)]) if w > 1 \
-        else z3.If(bx[0] + by[0] == 2, z3.IntVal(1), z3.IntVal(0))
+    return E.note_bounds(bits.and_bits(x, y, w), 0, (1 << w) - 1)
+
+
+def sym_width(E, a, b):
+    wa = width_of(E, zint(a)) if not isinstance(a, int) else (a.bit_length() if a >= 0 else None)
+    wb = width_of(E, zint(b)) if not isinstance(b, int) else (b.bit_length() if b >= 0 else None)
+    if wa is None or wb is None:
+        return None
+    return max(wa, wb)
 
 
 def bit_and(E, a, b):
@@ -385,9 +394,13 @@ def int_binop(E, op, a, b):
     if op is ast.BitAnd:
         return bit_and(E, a, b)
     if op is ast.BitOr:
-        return zint(a) + zint(b) - zint(bit_and(E, a, b))
+        w = sym_width(E, a, b)
+        r = zint(a) + zint(b) - zint(bit_and(E, a, b))
+        return E.note_bounds(r, 0, (1 << w) - 1) if w is not None else r
     if op is ast.BitXor:
-        return zint(a) + zint(b) - 2 * zint(bit_and(E, a, b))
+        w = sym_width(E, a, b)
+        r = zint(a) + zint(b) - 2 * zint(bit_and(E, a, b))
+        return E.note_bounds(r, 0, (1 << w) - 1) if w is not None else r
     if op in (ast.LShift, ast.RShift):
         if not isinstance(b, int):
             # symbolic shift count: enumerate when bounded small
@@ -801,7 +814,11 @@ _CHAIN = {}
 def table_or_chain(obj, items, j):
     k = id(obj)
     if k not in _CHAIN or _CHAIN[k][0] is not obj:
-        _CHAIN[k] = (obj, table_fn(items))
+        if len(items) > 16:
+            from ..common.core import uf_table
+            _CHAIN[k] = (obj, uf_table(items))
+        else:
+            _CHAIN[k] = (obj, table_fn(items))
     return _CHAIN[k][1](j)
 
 
